@@ -227,9 +227,9 @@ fn junk_case() -> impl Strategy<Value = (u32, Vec<Bank>)> {
 fn run(r: &Run) {
     let t = r.tier;
     r.breadcrumbs.store(true, std::sync::atomic::Ordering::Relaxed);
-    r.prop("junk_banks", t.pick(20_000, 1_000_000), junk_case, |(run, banks), ev| survives(*run, banks, ev));
-    r.prop("extreme_events", t.pick(2_500, 150_000), move || case(t, 10), case_oracle);
-    crate::props::c12::survival_batch(r, t.pick(300, 20_000));
+    r.prop("junk_banks", t.pick(20_000, 400_000), junk_case, |(run, banks), ev| survives(*run, banks, ev));
+    r.prop("extreme_events", t.pick(2_500, 40_000), move || case(t, 10), case_oracle);
+    crate::props::c12::survival_batch(r, t.pick(300, 3_000));
 }
 
 fn replay(_r: &Run, check: &str, case: &Value) -> Option<Outcome> {
